@@ -22,11 +22,23 @@ RULE = ("mapping cases = operation sequences over keys {a, A, ab, b}: exhaustive
         "the sequence replaces an existing key and removes a key; equality cases = parsed documents, every block/field x every perturbation "
         "kind; non-trivial = document with >= 1 entry with >= 2 fields; distinct = distinct sequence / document")
 ASSUMPTIONS = ["field keys distinct and not ENTRYTYPE/ID", "perturbed objects are rebuilt through the public constructors"]
-MIN = {"model_step": (100000, 1000000), "entry_invariant": (100000, 1000000), "eq_copy": (5000, 100000), "eq_perturbation": (20000, 400000)}
+MIN = {"model_step": (100000, 1000000), "entry_invariant": (100000, 1000000), "eq_copy": (5000, 100000), "eq_perturbation": (20000, 400000), "start_entry_with_middleware_metadata": (5000, 50000)}
 
 KEYS = ["a", "A", "ab", "b"]      # case variants and keys that are substrings of another key
 MUT = [(op, k) for op in ("set_field", "setitem", "pop", "pop_default", "delitem") for k in KEYS]
-STARTS = [[], ["a", "b"], ["A", "a", "ab"]]
+STARTS = [[], ["a", "b"], ["A", "a", "ab"], ["k%d" % i for i in range(12)] + ["ab", "a"] + ["j%d" % i for i in range(12)]]
+
+
+# "starting from arbitrary parsed entries": the start entry first passes (in place) through a shipped middleware
+# that leaves metadata behind, as entries parsed with a non-default stack do
+PRES = [None, None, "alpha", "custom", "enclosing", "resolve"]
+
+
+def pre_apply(lib, pre):
+    from bibtexparser import middlewares as mws
+    mw = {"alpha": lambda: mws.SortFieldsAlphabeticallyMiddleware(), "custom": lambda: mws.SortFieldsCustomMiddleware(order=("b", "a")),
+          "enclosing": lambda: mws.RemoveEnclosingMiddleware(), "resolve": lambda: mws.ResolveStringReferencesMiddleware()}[pre]()
+    return mw.transform(lib)
 
 
 def _K(tier):
@@ -43,11 +55,11 @@ def cases(tier, seed, shard, nshards):
         for si in range(len(STARTS)):
             for seq in itertools.product(range(len(MUT)), repeat=k):
                 if idx % nshards == shard:
-                    yield {"k": "map", "start": si, "ops": [list(MUT[i]) for i in seq]}
+                    yield {"k": "map", "start": si, "ops": [list(MUT[i]) for i in seq], "pre": PRES[(idx // nshards) % len(PRES)]}
                 idx += 1
     r = rng_for(seed, shard, "c19")
     for _ in range(tier_pick(tier, 8000, 60000) // nshards):
-        yield {"k": "map", "start": r.randrange(len(STARTS)), "ops": [list(r.choice(MUT)) for _ in range(30)]}
+        yield {"k": "map", "start": r.randrange(len(STARTS)), "ops": [list(r.choice(MUT)) for _ in range(30)], "pre": r.choice(PRES)}
     for _ in range(tier_pick(tier, 6000, 400000) // nshards):
         text, _ = grammar.document(r, grammar.Opts(max_items=5, min_items=1))
         yield {"k": "eq", "text": text}
@@ -94,7 +106,12 @@ def check_map(case, ctx):
     start = STARTS[case["start"]]
     fields = [Field(k, "v0_" + k, i) for i, k in enumerate(start)]
     e = Entry("article", "Key1", list(fields), start_line=0, raw="raw")
-    d = {f.key: f for f in fields}
+    if case.get("pre"):
+        from bibtexparser.library import Library
+        lib = pre_apply(Library([e]), case["pre"])
+        e = lib.entries[0]
+        ctx.mon("start_entry_with_middleware_metadata")
+    d = {f.key: f for f in e.fields}
     out = []
     replaced = removed = False
     why = read_checks(e, d, "article", "Key1")
